@@ -102,11 +102,11 @@ class Grid(core.Layer):
         return check_case([tuple(p) for p in case['pairs']], case['reverse'], case['split'], case['interleave'], None, case.get('empties', 0), case.get('coincide', 0))
 
 
-@core.guarded(lambda ref, q, peaks, rev, *a: dict(reference=ref, query=q, peaks=peaks, reverse=rev))
-def check_row(ref, q, peaks, rev, acc):
+@core.guarded(lambda ref, q, peaks, rev, acc=None, cfg=0: dict(reference=ref, query=q, peaks=peaks, reverse=rev, config=cfg))
+def check_row(ref, q, peaks, rev, acc, cfg=0):
     """HitEnum of rows that the REAL aligner builds (several segments, trimmed by conflict resolution) on indel-ladder worlds"""
     from mc.coma import make_aligner, OpticalMap
-    al = make_aligner(4, 100, 1, -25, 100, 120)
+    al = make_aligner(4, 100, 1, -25, 100, 120) if not cfg else make_aligner(4, 100, 1, -25, 100, 120, 0.05, 1)      # cfg 1: -ss 1 with a small -sj
     row = al.align(OpticalMap(1, ref[-1] + 10, ref), OpticalMap(2, q[-1] + 1, q), [Peak(p, 10.) for p in peaks], rev)
     pairs = [(p.reference.siteId, p.query.siteId) for p in row.alignedPairs]
     hit = row.cigarString
@@ -118,11 +118,62 @@ def check_row(ref, q, peaks, rev, acc):
         if sum(1 for s_ in row.segments if not s_.empty) >= 2:
             acc.nontriv((tuple(q), tuple(peaks), rev))
             acc.classes['multi-segment-rows'] += 1
-        case = dict(reference=ref, query=q, peaks=peaks, reverse=rev)
+        case = dict(reference=ref, query=q, peaks=peaks, reverse=rev, config=cfg)
         for f in found:
             acc.viol(f[0], case, f[1], f[2], f[3])
         acc.sample(case)
     return found
+
+
+@core.guarded(lambda n1, k, n2, sc2, *a: dict(kind='cross', first=n1, shared_query=k, second=n2, score=sc2))
+def check_cross(n1, k, n2, sc2, acc):
+    """two hand-built segments from neighbouring peaks in a CROSS conflict: the second starts with the pair (n1, k), k < n1 - it shares
+    reference label n1 with the end of the first and query label k with its middle, so the two conflicting sub-runs hold different numbers
+    of labels; through the real chainer / resolver / AlignmentResultRow.create, then the HitEnum of the row against its pairs"""
+    from mc.coma import make_aligner, AlignmentSegment, AlignmentResultRow
+
+    def segment(pairs, peak):
+        pos = [ScoredAlignedPair(AlignedPair(P(r, 100000 + 1000 * r), P(q, 1000 * q), 1000 * q - (1000 * r + 100000 - peak), 1), sc) for r, q, sc in pairs]
+        return AlignmentSegment.create(pos, Peak(peak, 50.), pos)
+    first = segment([(i, i, 1000.) for i in range(1, n1 + 1)], 100000)
+    second = segment([(n1, k, float(sc2))] + [(n1 + j, n1 + j, 1000.) for j in range(1, n2 + 1)], 100400)
+    al = make_aligner(1500, 1000, 1, -250, 1000, 1200)
+    resolved = al.segmentConflictResolver.resolveConflicts([first, second])
+    row = AlignmentResultRow.create(resolved, 7, 1, 8000, 300000, False)
+    pairs = [(p.reference.siteId, p.query.siteId) for p in row.alignedPairs]
+    hit = row.cigarString
+    found = [(p, 'pairs=%s hit=%r' % (pairs, hit), 'row', {'cross': True}) for p in hitenum_problems(hit, pairs, False)] if pairs else []
+    if acc is not None:
+        acc.evals += 1
+        acc.transitions += 3
+        acc.state(('x', hit))
+        acc.nontriv(('x', n1, k, n2, sc2))
+        case = dict(kind='cross', first=n1, shared_query=k, second=n2, score=sc2)
+        for f in found:
+            acc.viol(f[0], case, f[1], f[2], f[3])
+        acc.sample(case)
+    return found
+
+
+class CrossConflicts(core.Layer):
+    name = 'A3:cross-conflicts'
+    optional = False
+
+    def __init__(self):
+        self.cases = [(n1, k, n2, sc) for n1 in (3, 4, 5, 6) for k in range(1, n1) for n2 in (2, 3, 4) for sc in (400, 1000, 1600)]
+        self.bounds = dict(first_segment_pairs=[3, 6], shared_query_label='1..n1-1', second_segment_tail=[2, 4], score_of_the_crossing_pair=[400, 1000, 1600])
+        self.rule = '%d hand-built pairs of segments in a cross conflict through the real resolver and row builder' % len(self.cases)
+
+    def nblocks(self):
+        return 4
+
+    def run_block(self, b, acc):
+        for c in self.cases[b::4]:
+            acc.seq += 1
+            check_cross(*c, acc)
+
+    def replay(self, case):
+        return check_cross(case['first'], case['shared_query'], case['second'], case['score'], None)
 
 
 class AlignerRows(core.Layer):
@@ -132,8 +183,8 @@ class AlignerRows(core.Layer):
         from mc import lattice
         self.cases = list(lattice.ladder_cases(full))
         self.chunk = 60
-        self.bounds = dict(worlds='indel-ladder worlds (mc.props.c15.ladder_worlds(full=%s))' % full, peaks_per_list=[1, 3], strands=['+ q', '- mirror(q)', '- q'])
-        self.rule = '%d (world, peak list) cases x 3 strand variants: cigarString of the row the real aligner returns' % len(self.cases)
+        self.bounds = dict(worlds='indel-ladder worlds (mc.props.c15.ladder_worlds(full=%s))' % full, peaks_per_list=[1, 3], strands=['+ q', '- mirror(q)', '- q'], join_scorers=[[1, 0], [0.05, 1]])
+        self.rule = '%d (world, peak list) cases x 3 strand variants x 2 join scorers: cigarString of the row the real aligner returns' % len(self.cases)
 
     def nblocks(self):
         return (len(self.cases) + self.chunk - 1) // self.chunk
@@ -141,11 +192,12 @@ class AlignerRows(core.Layer):
     def run_block(self, b, acc):
         for name, ref, q, peaks in self.cases[b * self.chunk:(b + 1) * self.chunk]:
             for rev, qq in ((False, q), (True, sorted(q[-1] - p for p in q)), (True, q)):
-                acc.seq += 1
-                check_row(ref, qq, peaks, rev, acc)
+                for cfg in (0, 1):
+                    acc.seq += 1
+                    check_row(ref, qq, peaks, rev, acc, cfg)
 
     def replay(self, case):
-        return check_row(case['reference'], case['query'], case['peaks'], case['reverse'], None)
+        return check_row(case['reference'], case['query'], case['peaks'], case['reverse'], None, case.get('config', 0))
 
 
 def layers(tier, seed):
@@ -154,5 +206,5 @@ def layers(tier, seed):
                         bounds=dict(worlds=len(ws), modes=list(e2e.MODES)),
                         rule='every record of every file of the standard worlds x 4 modes')
     if tier == 'quick':
-        return [Grid('A:7x7', 7, 7), AlignerRows(False), lb]
-    return [Grid('A:7x7', 7, 7), AlignerRows(True), Grid('A:9x9', 9, 9), lb, Grid('A:10x10', 10, 10, optional=True)]
+        return [Grid('A:7x7', 7, 7), AlignerRows(False), CrossConflicts(), lb]
+    return [Grid('A:7x7', 7, 7), AlignerRows(True), CrossConflicts(), Grid('A:9x9', 9, 9), lb, Grid('A:10x10', 10, 10, optional=True)]
